@@ -233,7 +233,7 @@ func (e *Enc) calleeNames(fn *ssa.Function, body map[int]bool, out map[string]bo
 // topModset: expanded modifies clause of the function under verification (nil if it has no frame obligation).
 func (e *Enc) topModset(fr *Frame) map[string]bool {
 	top := topFrame(fr)
-	if top.spec == nil || top.spec.ModifiesAll || (len(top.spec.Ensures) == 0 && len(top.spec.Modifies) == 0) {
+	if top.spec == nil || top.spec.ModifiesAll || !top.spec.HasModifies {
 		return nil
 	}
 	mods, err := e.P.expandHeaps(top.spec.Modifies)
@@ -826,7 +826,8 @@ func VerifyFunc(p *Program, fn *ssa.Function, prop string) (res *FuncResult) {
 			e.oblige(nil, out, "invariant-reestablished", en.Label, en.Src, fn.Pos(), t, en.Props)
 		}
 		// frame: every heap not listed in modifies is unchanged on pre-existing objects
-		if (len(spec.Ensures) > 0 || len(spec.Modifies) > 0 || len(spec.Invariants) > 0) && !spec.ModifiesAll {
+		// frame obligations are generated for functions that declare a frame ("modifies ...", "modifies nothing")
+		if spec.HasModifies && !spec.ModifiesAll {
 			mods, err := p.expandHeaps(spec.Modifies)
 			if err != nil {
 				unsupported("%v", err)
